@@ -305,6 +305,23 @@ def LWWMap.containsKey (m : LWWMap K V C) (k : K) : Bool :=
 /-- `self.inner.merge(other.inner)` -/
 instance : Semilattice (LWWMap K V C) := ⟨fun self other => ⟨merge self.inner other.inner⟩⟩
 
+/-! ## writes (operation scripts on an `LWWMap`) -/
+
+/-- One write: `val = some v` is `insert(key, v, clock)`, `val = none` is `remove(key, clock)`. -/
+structure Write (K V C : Type) where
+  key : K
+  val : Option V
+  clock : C
+
+/-- Apply one write with the map's own API. -/
+def LWWMap.apply (m : LWWMap K V C) (w : Write K V C) : LWWMap K V C :=
+  match w.val with
+  | some v => m.insert w.key v w.clock
+  | none => m.remove w.key w.clock
+
+/-- The state of a replica that has seen the writes `ws` (in this order). -/
+def LWWMap.applyAll (ws : List (Write K V C)) : LWWMap K V C := ws.foldl LWWMap.apply LWWMap.empty
+
 end LWWMap
 
 /-! ## `lwwset.rs` -/
